@@ -95,6 +95,8 @@ where
         rng_seed: RngSeed::Fixed(seed),
         max_shrink_iters: std::env::var("VERIF_MAX_SHRINK").ok().and_then(|x| x.parse().ok()).unwrap_or(4000),
         max_global_rejects: 1 << 30,
+        // shrinking is bounded in work and in time (it only makes the replay smaller, it decides nothing)
+        max_shrink_time: std::env::var("VERIF_MAX_SHRINK_MS").ok().and_then(|x| x.parse().ok()).unwrap_or(90_000),
         ..Config::default()
     };
     let mut runner = TestRunner::new(cfg);
